@@ -53,10 +53,20 @@ class Property:
         return []
 
 def load_known(pid):
-    if not os.path.exists(KNOWN):
-        return []
-    data = json.load(open(KNOWN))
-    return [f for f in data.get('findings', []) if f.get('property') == pid]
+    """known findings of a property: the committed known_findings.json is authoritative; while a property is still
+    being built (not yet listed in manifest.d/_ready.txt, hence not assembled) its findings.d fragment is used"""
+    out = []
+    if os.path.exists(KNOWN):
+        data = json.load(open(KNOWN))
+        out = [f for f in data.get('findings', []) if f.get('property') == pid]
+    try:
+        ready = set(open(os.path.join(VERIF, 'manifest.d', '_ready.txt')).read().split())
+    except OSError:
+        ready = set()
+    frag = os.path.join(VERIF, 'findings.d', pid + '.json')
+    if pid not in ready and os.path.exists(frag):
+        out = [f for f in json.load(open(frag)).get('findings', []) if f.get('property') == pid]
+    return out
 
 def _case_key(case):
     c = {k: v for k, v in case.items() if not k.startswith('_')}
